@@ -134,7 +134,9 @@ func (sb *seqbag) sampleSeqBag(nb int) (*seqbag, error) {
 	permutation := rand.Perm(sb.NbSequences())
 	for i := 0; i < nb; i++ {
 		seq := sb.seqs[permutation[i]]
-		sample.AddSequenceChar(seq.name, seq.SequenceChar(), seq.Comment())
+		tmpseq := make([]uint8, len(seq.sequence))
+		copy(tmpseq, seq.sequence)
+		sample.AddSequenceChar(seq.name, tmpseq, seq.Comment())
 	}
 	return sample, nil
 }
